@@ -300,6 +300,10 @@ def dictkey(ctx, R, reach):
                 continue
             if const_value(nd.slice) is not None or isinstance(nd.slice, (ast.Constant, ast.Slice)):
                 continue
+            if f.name in ("__getitem__", "__missing__") and isinstance(nd.slice, ast.Name) and len(f.params) >= 2 and nd.slice.id == f.params[1]:
+                # a mapping class forwarding its own key to the table: KeyError for an unknown key is its contract, exactly as for
+                # the dict it stands for; the keys its users read are judged where they are written (C11.OPTKEYS)
+                continue
             if nd.value.id in ctx.types.locals.get(f.qual, ()):
                 # a local table: one assignment of a dict literal, never stored into or mutated afterwards
                 dn_ = nd.value.id
